@@ -323,7 +323,7 @@ Definition run_step (st : state) (s : step) : state * val :=
   let r := do_op st s in
   let root' := vwrite (s_h s) (fst r) (slot_data st (s_slot s)) in
   let st' := put_slot st (s_slot s) root' in
-  (st', VL [snd r; obs_data root']).
+  (st', VL [snd r; obs_data (vdata (s_h s) root')]).
 
 Fixpoint run_steps (st : state) (ss : list step) : state * list val :=
   match ss with
